@@ -92,6 +92,26 @@ func verifAnyDatagram() []byte {
 	}
 }
 
+// verifFollowUpDatagram is a second datagram on an established session: empty, a lone type byte, a regular update of
+// the peer with an arbitrary cost towards us (may evict it), an advertisement without record, or a ping for us.
+func verifFollowUpDatagram() []byte {
+	switch verifapi.Choose(5) {
+	case 0:
+		return nil
+	case 1:
+		return []byte{verifapi.Byte()}
+	case 2:
+		ru := &routingUpdate{NodeID: "B", UpdateID: "f", UpdateEpoch: 5, UpdateSequence: verifapi.Uint64(),
+			Connections: map[string]float64{"A": verifapi.Float()}, ForwardingNode: "B"}
+		return append([]byte{MsgTypeRoute}, verifapi.JSON(ru)...)
+	case 3:
+		return append([]byte{MsgTypeServiceAdvertisement}, verifapi.JSON(&serviceAdvertisementFull{Cancel: verifapi.Bool()})...)
+	}
+	enc := &Netceptor{nodeID: "Z", hashLock: &sync.RWMutex{}, nameHashes: map[uint64]string{}}
+	w, _ := enc.translateDataFromMessage(&MessageData{FromNode: "B", ToNode: "A", FromService: verifName1(), ToService: "ping", HopsToLive: verifapi.Byte()})
+	return w
+}
+
 // verifAnyService is a reserved service name or an arbitrary one-byte one.
 func verifAnyService() string {
 	switch verifapi.Choose(3) {
@@ -139,7 +159,12 @@ func Verif_C07_after_handshake() {
 	n.s.knownNodeInfo["C"] = &nodeInfo{Epoch: 1, Sequence: 1}
 	n.s.serviceAdsReceived["C"] = map[string]*ServiceAdvertisement{"s": {NodeID: "C", Service: "s", Time: time.Unix(100, 0)}}
 	d := verifAnyDatagram()
-	sess, _ := verifRunProtocol(n, [][]byte{verifHandshake("B", 1), d}, &BackendInfo{connectionCost: 1})
+	script := [][]byte{verifHandshake("B", 1), d}
+	if verifapi.Tier() == 1 {
+		// thorough: a second datagram after the arbitrary one (if the session is still up), from a smaller menu
+		script = append(script, verifFollowUpDatagram())
+	}
+	sess, _ := verifRunProtocol(n, script, &BackendInfo{connectionCost: 1})
 	verifapi.Cover("session-ended")
 	verifapi.Assert("session-closed", *sess.closed >= 1)
 	verifapi.Assert("no-lock-left-held", verifapi.HeldLocks() == 0)
